@@ -152,15 +152,21 @@ def _split():
                          cost=(40 if kind == "dq" else 10) * n)
     # extraction from identity tables (the sift starts at a concrete position): the sizes at
     # which the trickle-down reaches grandchildren of both children of the root
-    # (n = 17: the first size at which the trickle-down from a max-level node reaches a
-    # grandchild that has children of its own; measured 5 min, 9 GB per instance)
+    # Deep sizes. The element that replaces the extracted one comes from the LAST slot, i.e. from
+    # one particular subtree; the second swap of a trickle-down round (with the grandchild's
+    # parent) can only happen when that parent lies outside this subtree. For pop_min that is
+    # possible from n = 12 on (n = 17 here: 3 min); for pop_max only from n = 20 on (last slot 19
+    # under position 4, largest grandchild under position 3 with children at 15, 16): 6 min, 9 GB.
     for n, t in ((6, QUICK), (7, QUICK), (8, THOROUGH), (9, THOROUGH), (15, THOROUGH), (16, THOROUGH), (17, THOROUGH), (18, THOROUGH), (20, THOROUGH)):
         for op in ("pop_lo", "pop_hi", "pop_lo_if"):
             if n >= 15 and op == "pop_lo_if":
                 continue
+            tt = t
+            if (n, op) in ((17, "pop_lo"), (20, "pop_hi")):
+                tt = QUICK
             # sorted consumption is a chain of these extractions (C06)
-            step(op, "dq", n, "inv", "or", {"C02": t, "C08": t if op == "pop_lo_if" else None,
-                                            "C06": t if op != "pop_lo_if" else None}, tables="id",
+            step(op, "dq", n, "inv", "or", {"C02": tt, "C08": tt if op == "pop_lo_if" else None,
+                                            "C06": tt if op != "pop_lo_if" else None}, tables="id",
                  cost=30 * n if n < 15 else 1500, mem=3 if n < 15 else 10)
     for n, t in ((8, QUICK), (9, THOROUGH), (15, THOROUGH), (16, THOROUGH)):
         step("pop_hi", "pq", n, "inv", "or", {"C01": t, "C06": t}, tables="id", cost=10 * n)
